@@ -42,43 +42,33 @@ type c07alpha struct {
 
 var c07ops = []string{":-", "-", ":+", "+", ":?", "?"}
 
-// gen enumerates all templates with exactly n AST nodes.
-func (a c07alpha) gen(n int, memo map[int][]string) []string {
-	if v, ok := memo[n]; ok {
-		return v
-	}
-	var out []string
+// each streams all templates with exactly n AST nodes to f (nothing is materialised beyond the current string).
+func (a c07alpha) each(n int, prefix string, f func(string)) {
 	if n == 0 {
-		out = []string{""}
-		memo[0] = out
-		return out
+		f(prefix)
+		return
 	}
-	// first item has k nodes (1..n), remainder n-k
+	// first item has k nodes (1..n), the remainder n-k
 	for k := 1; k <= n; k++ {
-		var items []string
 		if k == 1 {
-			items = append(items, a.lits...)
-			items = append(items, "$$")
+			for _, l := range a.lits {
+				a.each(n-1, prefix+l, f)
+			}
+			a.each(n-1, prefix+"$$", f)
 			for _, nm := range a.names {
-				items = append(items, "$"+nm, "${"+nm+"}")
+				a.each(n-1, prefix+"$"+nm, f)
+				a.each(n-1, prefix+"${"+nm+"}", f)
 			}
 		}
-		for _, sub := range a.gen(k-1, memo) {
-			for _, nm := range a.names {
-				for _, op := range a.ops {
-					items = append(items, "${"+nm+op+sub+"}")
-				}
-			}
-		}
-		rest := a.gen(n-k, memo)
-		for _, it := range items {
-			for _, r := range rest {
-				out = append(out, it+r)
+		for _, nm := range a.names {
+			for _, op := range a.ops {
+				head := prefix + "${" + nm + op
+				a.each(k-1, "", func(sub string) {
+					a.each(n-k, head+sub+"}", f)
+				})
 			}
 		}
 	}
-	memo[n] = out
-	return out
 }
 
 type c07env struct {
@@ -218,18 +208,26 @@ func (c07) Run(c *core.Ctx) {
 		stages = []stage{{"f", full, 3, env25}, {"m", mid, 4, env25}, {"s", small, 6, env9}}
 	}
 	for _, st := range stages {
-		memo := map[int][]string{}
 		for n := 0; n <= st.n; n++ {
-			ts := st.a.gen(n, memo)
-			for ti, t := range ts {
-				if ti&1023 == 0 && c.Expired() {
+			ti := 0
+			stop := false
+			st.a.each(n, "", func(t string) {
+				if stop {
+					return
+				}
+				if ti&4095 == 0 && c.Expired() {
+					stop = true
 					return
 				}
 				for ei, e := range st.envs {
 					id := fmt.Sprintf("g/%s/%d/%d/%d", st.tag, n, ti, ei)
-					t, e := t, e
+					e := e
 					c.Do(id, func() core.Outcome { return c07check(t, e, true) })
 				}
+				ti++
+			})
+			if stop {
+				return
 			}
 		}
 	}
